@@ -187,6 +187,15 @@ class VerifAccumulateOperation(FloatOperation):
         return FloatDataType(out)
 
 
+class VerifExitingOperation(FloatOperation):
+    """Passes its input through; when `trip` is true it behaves like a wrapped command-line helper that calls sys.exit()."""
+
+    def _process_logic(self, data, trip):
+        if trip:
+            raise SystemExit("verif: a helper called sys.exit()")
+        return FloatDataType(data.data)
+
+
 class VerifScaleAndNoteOperation(FloatOperation):
     """data * factor; also stores the factor it used under the declared context key `last_factor`."""
 
